@@ -806,6 +806,7 @@ func (g *FnGen) evalCall(env *Env, x *ECall) SVal {
 			env.fail("capture: no captured variable %d in %s", idx, key)
 		}
 		k := w.funcKey(f)
+		g.note("closure values determine their bindings: capture(fn, i, f) reads the i-th captured variable back from a closure value (inverse of closure creation)")
 		var sorts, bvs, names []string
 		for i, fv := range f.FreeVars {
 			srt := w.sortOf(fv.Type())
